@@ -96,6 +96,11 @@ func checkC02(c *Check) {
 	}
 	p := c.P
 	mapContract(c)
+	queuePrivate(c, t)
+	// a failed release ends the processor: a flush that stopped half-way is
+	// never run again on the same queue (rules of C15)
+	nf := importRules(c, "C15", checkC15, "failed-release-stops: ", "no-error-dropped", "error-handoff-keeps-first-error", "processor-returns-received-error")
+	c.Floor("imported failed-release-stops obligations", 20, nf)
 	isDelivered := func(e *Org) bool { return e != nil && e.K != "index" && e.K != "range" }
 
 	// 1-3: callbacks of lookups keyed by the event's session
@@ -108,8 +113,19 @@ func checkC02(c *Check) {
 		cb := m.Cb
 		name := "session callback " + cb.Name()
 		var emits, appends, flushes []TFact
+		inCb := func(f TFact) bool {
+			if f.Fn == cb {
+				return true
+			}
+			for _, s := range f.Stack {
+				if s == funcDisplayName(cb) {
+					return true
+				}
+			}
+			return false
+		}
 		for _, f := range t.Facts {
-			if f.Fn != cb || f.EP != m.EP {
+			if !inCb(f) || f.EP != m.EP {
 				continue
 			}
 			switch f.Kind {
@@ -448,4 +464,148 @@ func isZeroLenSlice(s *ssa.Slice) bool {
 	}
 	k, ok := s.High.(*ssa.Const)
 	return ok && k.Value != nil && k.Int64() == 0
+}
+
+
+// queuePrivate: the hold queue of a session object is storage of that
+// object alone. Every store to the queue field is nil, or append(<the same
+// object's queue>, ...); every read of the field is used only for len/cap,
+// indexing, ranging, or as the base of such an append. Otherwise two
+// sessions can share one backing array and overwrite each other's held
+// events.
+func queuePrivate(c *Check, t *Tracker) {
+	p := c.P
+	n := 0
+	for _, fn := range p.AllRepoFuncs() {
+		if !p.InDaemon(fn) || fn.Blocks == nil {
+			continue
+		}
+		r := NewResolver(p)
+		allInstrs(fn, func(in ssa.Instruction) {
+			fa, ok := in.(*ssa.FieldAddr)
+			if !ok {
+				return
+			}
+			nt := namedOf(fa.X.Type())
+			if nt == nil || nt.Obj() != t.UserT.Obj() || fieldName(fa.X.Type(), fa.Field) != "cached" {
+				return
+			}
+			owner := r.Of(fa.X)
+			rr := fa.Referrers()
+			if rr == nil {
+				return
+			}
+			for _, u := range *rr {
+				switch x := u.(type) {
+				case *ssa.Store:
+					if x.Addr != ssa.Value(fa) {
+						n++
+						c.Bad("queue-private", "address of the hold queue stored in "+fn.Name(), p.InstrPos(x), "the address of a session's hold queue is stored: the queue can be changed from outside the object")
+						continue
+					}
+					n++
+					construct := "store to the hold queue in " + fn.Name()
+					if isNilConst(x.Val) {
+						c.OK("queue-private", construct, p.InstrPos(x), "emptied (nil)")
+						continue
+					}
+					if ap, ok := strip(x.Val).(*ssa.Call); ok {
+						if bi, ok := ap.Call.Value.(*ssa.Builtin); ok && bi.Name() == "append" && len(ap.Call.Args) == 2 {
+							base := r.Of(ap.Call.Args[0])
+							good := base.K == "field" && base.Name == "cached" && sameOrg(base.Sub[0], owner)
+							c.Cond(good, "queue-private", construct, p.InstrPos(x), "append to the same object's own queue", "the queue is rebuilt on storage that is not the object's own queue ("+trimOrg(base.String())+"): sessions pending at the same time share one backing array, so held events of one overwrite those of another (lost, duplicated and attributed to the wrong session)")
+							continue
+						}
+					}
+					if sl, ok := strip(x.Val).(*ssa.Slice); ok {
+						base := r.Of(sl.X)
+						good := base.K == "field" && base.Name == "cached" && sameOrg(base.Sub[0], owner)
+						c.Cond(good, "queue-private", construct, p.InstrPos(x), "re-slice of the same object's own queue", "the queue is set to a slice of other storage ("+trimOrg(base.String())+")")
+						continue
+					}
+					if mk, ok := strip(x.Val).(*ssa.MakeSlice); ok {
+						_ = mk
+						c.OK("queue-private", construct, p.InstrPos(x), "fresh slice")
+						continue
+					}
+					c.Bad("queue-private", construct, p.InstrPos(x), "the queue is set to "+trimOrg(r.Of(x.Val).String())+", which is not fresh storage nor the object's own queue: two sessions may share one backing array")
+				case *ssa.UnOp:
+					if x.Op != token.MUL {
+						continue
+					}
+					ur := x.Referrers()
+					if ur == nil {
+						continue
+					}
+					for _, uu := range *ur {
+						n++
+						construct := "use of the hold queue in " + fn.Name()
+						okUse, what := false, ""
+						switch y := uu.(type) {
+						case *ssa.IndexAddr, *ssa.Index, *ssa.Range, *ssa.DebugRef:
+							okUse, what = true, "indexed / ranged"
+						case *ssa.Call:
+							if bi, ok := y.Call.Value.(*ssa.Builtin); ok {
+								switch bi.Name() {
+								case "len", "cap":
+									okUse, what = true, bi.Name()
+								case "append":
+									if y.Call.Args[0] == ssa.Value(x) {
+										okUse, what = true, "base of an append (its destination is checked as a store)"
+										// the append's result must only be stored back into a queue field
+										if ar := y.Referrers(); ar != nil {
+											for _, au := range *ar {
+												if st, ok := au.(*ssa.Store); ok {
+													if fa2, ok := st.Addr.(*ssa.FieldAddr); ok && fieldName(fa2.X.Type(), fa2.Field) == "cached" && sameOrg(r.Of(fa2.X), owner) {
+														continue
+													}
+												}
+												if _, ok := au.(*ssa.DebugRef); ok {
+													continue
+												}
+												okUse, what = false, "the grown queue is kept somewhere other than the same object's queue field"
+											}
+										}
+									} else {
+										what = "the queue's elements are appended to another slice"
+										okUse = true // copies elements, does not share storage
+									}
+								}
+							}
+							if !okUse && what == "" {
+								what = "the queue is passed to " + calleeName(y.Common())
+							}
+						case *ssa.Slice:
+							what = "a slice of the queue's storage is taken"
+							okUse = true
+							if sr := y.Referrers(); sr != nil {
+								for _, su := range *sr {
+									if st, ok := su.(*ssa.Store); ok {
+										if fa2, ok := st.Addr.(*ssa.FieldAddr); ok && fieldName(fa2.X.Type(), fa2.Field) == "cached" && sameOrg(r.Of(fa2.X), owner) {
+											continue
+										}
+									}
+									if _, ok := su.(*ssa.DebugRef); ok {
+										continue
+									}
+									okUse = false
+								}
+							}
+							if okUse {
+								what = "re-sliced into the same object's queue field"
+							}
+						default:
+							what = fmt.Sprintf("the queue value flows into %T", uu)
+						}
+						if okUse {
+							c.OK("queue-private", construct, p.InstrPos(uu), what)
+						} else {
+							c.Bad("queue-private", construct, p.InstrPos(uu), what+": the backing array of this session's hold queue becomes reachable from outside the object, so another session can end up holding its events in the same storage")
+						}
+					}
+				}
+			}
+		})
+	}
+	c.Floor("uses of the hold-queue field examined", 6, n)
 }
